@@ -62,18 +62,18 @@ Definition over_insert (m : list ent) (e : ent) : list ent :=
 Definition with_visible (self visible : list ent) : list ent :=
   fold_left (fun m e => if omap_has m e then m else m ++ [e]) visible self.
 
-Inductive named := NSingle (e : ent) | NOver (m : list ent).
-Definition named_new (e : ent) : named := if is_overloaded e then NOver [e] else NSingle e.
+Inductive nament := NSingle (e : ent) | NOver (m : list ent).
+Definition named_new (e : ent) : nament := if is_overloaded e then NOver [e] else NSingle e.
 
-Definition entities := list (des * named).
-Fixpoint ents_get (m : entities) (d : des) : option named :=
+Definition entities := list (des * nament).
+Fixpoint ents_get (m : entities) (d : des) : option nament :=
   match m with
   | [] => None
   | (k, n) :: r => if k =? d then Some n else ents_get r d
   end.
 
 (* Region::add *)
-Definition add_to (n : named) (e : ent) : named :=
+Definition add_to (n : nament) (e : ent) : nament :=
   match n with
   | NSingle prev =>
       if eid prev =? eid e then NSingle e
@@ -123,7 +123,7 @@ Definition vis_make (v : visibility) (e : ent) : visibility :=
 (* Visible::insert: keyed by entity id, first one stays (no aliases in the fragment) *)
 Definition visible_insert (acc : list ent) (e : ent) : list ent :=
   if existsb (fun x => eid x =? eid e) acc then acc else acc ++ [e].
-Definition visible_insert_named (acc : list ent) (n : named) : list ent :=
+Definition visible_insert_named (acc : list ent) (n : nament) : list ent :=
   match n with
   | NSingle e => visible_insert acc e
   | NOver os => fold_left visible_insert os acc
@@ -138,7 +138,7 @@ Definition vis_lookup_into (v : visibility) (d : des) (acc : list ent) : list en
 
 Inductive lerr := EConflict | EUndeclared.
 (* Visible::into_unambiguous *)
-Definition into_unambiguous (vis : list ent) : option named + lerr :=
+Definition into_unambiguous (vis : list ent) : option nament + lerr :=
   match vis with
   | [] => inl None
   | e :: r =>
@@ -154,17 +154,17 @@ Definition into_unambiguous (vis : list ent) : option named + lerr :=
 (* ------------------------------------------------------------------------------------------ *)
 Record region := mkRegion { r_ents : entities; r_vis : visibility }.
 Definition region_empty : region := mkRegion [] vis_empty.
-Definition cache := list (des * named).
+Definition cache := list (des * nament).
 Record frame := mkFrame { f_region : region; f_cache : cache }.
 (* innermost scope first; `parent` of a frame = the rest of the list ([] = None) *)
 Definition scope := list frame.
 
-Definition cache_get (c : cache) (d : des) : option named := ents_get c d.
+Definition cache_get (c : cache) (d : des) : option nament := ents_get c d.
 Definition cache_remove (c : cache) (d : des) : cache := filter (fun kv => negb (fst kv =? d)) c.
 
-Definition lookup_immediate (f : frame) (d : des) : option named := ents_get (r_ents (f_region f)) d.
+Definition lookup_immediate (f : frame) (d : des) : option nament := ents_get (r_ents (f_region f)) d.
 
-Fixpoint lookup_enclosing (s : scope) (d : des) : option named :=
+Fixpoint lookup_enclosing (s : scope) (d : des) : option nament :=
   match s with
   | [] => None
   | f :: parent =>
@@ -185,10 +185,10 @@ Fixpoint lookup_visibility_into (s : scope) (d : des) (acc : list ent) : list en
   | f :: parent => lookup_visibility_into parent d (vis_lookup_into (r_vis (f_region f)) d acc)
   end.
 
-Definition lookup_visible (s : scope) (d : des) : option named + lerr :=
+Definition lookup_visible (s : scope) (d : des) : option nament + lerr :=
   into_unambiguous (lookup_visibility_into s d []).
 
-Inductive lres := LOk (n : named) | LErr (e : lerr).
+Inductive lres := LOk (n : nament) | LErr (e : lerr).
 
 (* `precedence_swapped` = the would-catch mutation "visible before enclosing" *)
 Definition lookup_uncached (s : scope) (d : des) : lres :=
@@ -508,3 +508,27 @@ Definition model_program (c : cfg) (p : program) : option model_out :=
   | Some st => Some (mkModelOut (rev (e_out st)) (rev (e_trace st)))
   | None => None
   end.
+
+(* ------------------------------------------------------------------------------------------ *)
+(* The scope chain the analyser has built when it reaches a program point                       *)
+(* ------------------------------------------------------------------------------------------ *)
+(* `pkgs p` = the declarations of package p in order; its region is what `Region::add` makes of
+   them.  `point_region` applies to an empty region what the elaborator applies for the items
+   of a region prefix (OAdd 0 / OMapv / OMpv); `point_scope` is the chain of these regions. *)
+Section PointScope.
+  Variable pkgs : N -> list ent.
+  Definition pkg_region (p : N) : entities := fold_left ents_add (pkgs p) [].
+  Definition named_ents (o : option nament) : list ent :=
+    match o with Some (NSingle e) => [e] | Some (NOver os) => os | None => [] end.
+  Definition item_apply (r : region) (it : item) : region :=
+    match it with
+    | IDecl e => mkRegion (ents_add (r_ents r) e) (r_vis r)
+    | IUseAll p => mkRegion (r_ents r) (vis_make_all (r_vis r) (pkg_region p))
+    | IUseName p d =>
+        mkRegion (r_ents r) (fold_left vis_make (named_ents (ents_get (pkg_region p) d)) (r_vis r))
+    | _ => r
+    end.
+  Definition point_region (pre : list item) : region := fold_left item_apply pre region_empty.
+  Definition point_scope (ch : list (list item)) : scope :=
+    map (fun pre => mkFrame (point_region pre) []) ch.
+End PointScope.
